@@ -1271,6 +1271,40 @@ func suitePortability(c *Ctx) {
 			}
 			p.transfer(walker, flags, "walk", r.Intn(c09KindCount), nil, respell)
 		}
+		// route 3: an instance of a LIMITED scenario after Initialise(Random) + Randomize(), as both explorers prepare
+		// their models: its action order is still the scenario's, and its encoding means the same set in any instance
+		for k := 0; k < c.N(3, 12); k++ {
+			var a3 model.Model
+			limit := 0.0
+			if pn := protect(func() {
+				all, e := c09BuildInstance(ds, c09KindModel)
+				if e != "" {
+					panic(e)
+				}
+				ones := make([]bool, p.n)
+				for i := range ones {
+					ones[i] = true
+				}
+				c09SetFlags(all, ones)
+				limit = all.DecisionVariable("ImplementationCost").Value() * (0.2 + 0.6*r.Float())
+				cm := catchment.NewModel().WithParameters(parameters.Map{"DataSourcePath": ds.rel, "MaximumImplementationCost": limit})
+				if pe := cm.ParameterErrors(); pe != nil {
+					panic(pe)
+				}
+				cm.Initialise(model.Random)
+				cm.Randomize()
+				a3 = cm
+			}); pn != "" || a3 == nil {
+				c.Stat("randomised limited instance: not built (" + clip(pn, 50) + ")")
+				continue
+			}
+			if got, want := strings.Join(c09KeysOf(a3), " "), strings.Join(c09KeysOf(ref), " "); got != want {
+				p.fail("order", "portability:action-order-changed", fmt.Sprintf("dataset %s: after Initialise(Random) + Randomize() under MaximumImplementationCost = %v the instance lists its actions as [%s]; every other instance of the scenario lists [%s]", ds.name, limit, clip(got, 400), clip(want, 400)), nil)
+				break
+			}
+			c.Stat("randomised limited instance transferred")
+			p.transfer(a3, c09FlagsOf(a3), "randomized-limited", r.Intn(c09KindCount), nil, nil)
+		}
 
 		// the real call sites: Saver (events with real archives), engine PATCH /model, engine solution pool
 		eng := p.newEngine()
